@@ -90,7 +90,7 @@ def h_order(a: int, b: int, c: int, i: int, j: int) -> bool:
     return H.ok()
 
 
-REPS = [None, 0, 1, -1, 2.5, float('nan'), 'a', '', 'b', True, (1, 2), 10 ** 30, -2, 1.0]
+REPS = [None, 0, 1, -1, 2.5, float('nan'), 'a', '', 'b', True, (1, 2), 10 ** 30, -2, 1.0, (2, 1), [1, 2], [2, 1], (1, (2, 3)), (1, (3, 2))]
 
 
 def _rep_body(i, j, pos):
@@ -138,7 +138,46 @@ def rebuild(x):
     return Vector(list(x))
 
 
+class EagerReuseId:
+    """id() for storage tuples as CPython may legally behave: a new tuple receives the identity of the most recently freed one
+    whenever there is one (the opposite extreme of the never-reusing stub used elsewhere).  A fingerprint memo keyed on
+    identity instead of content is stale under this schedule."""
+    def __init__(self):
+        self.known = []; self.next = 1 << 30
+
+    def __call__(self, obj):
+        import sys
+        if type(obj) is not tuple:
+            return id(obj)
+        for ent in self.known:
+            if ent[0] is obj:
+                return ent[1]
+        live = set(ent[1] for ent in self.known if sys.getrefcount(ent[0]) > 2 or ent[0] == ())
+        dead = [ent[1] for ent in self.known if ent[1] not in live]
+        if dead:
+            mid = dead[-1]
+        else:
+            self.next += 8; mid = self.next
+        self.known.append([obj, mid])
+        return mid
+
+
 def _coh_body(steps, poss, view_first=False):
+    import serif.vector as sv, serif.table as stb
+    saved = [(m_, m_.__dict__.get('id')) for m_ in (sv, stb)]
+    model = EagerReuseId()
+    sv.id = model; stb.id = model
+    try:
+        return _coh_body2(steps, poss, view_first)
+    finally:
+        for m_, old in saved:
+            if old is None:
+                m_.__dict__.pop('id', None)
+            else:
+                m_.id = old
+
+
+def _coh_body2(steps, poss, view_first=False):
     v = Vector([1, 2, 3], name='v')
     t = Table({'a': [4, 5, 6], 'b': [7, 8, 9]})
     view = t.cols()[1]
@@ -239,7 +278,7 @@ def obligations(tier):
                 continue
             obs.append(dict(name='order[swap %d,%d,|x|<2^%d]' % (i, j, bits), fn='h_order', config={'bits': bits, 'i': i, 'j': j}, budget=30 if q else 600,
                             bounds='3 int elements |x| < 2^%d, positions %d and %d holding unequal-hash values swapped' % (bits, i, j), smoke=[[1, 2, 3, i, j]]))
-    obs.append(dict(name='sensitive[representatives]', fn='h_reps', config={}, budget=90, bounds='every ordered pair of 14 representatives (None, ints, floats incl. NaN, str, bool, tuple, big int) at every position of a 3-element object vector and table column',
+    obs.append(dict(name='sensitive[representatives]', fn='h_reps', config={}, budget=90, bounds='every ordered pair of 19 representatives (incl. sequence cells that differ only in item order) (None, ints, floats incl. NaN, str, bool, tuple, big int) at every position of a 3-element object vector and table column',
                     smoke=[[0, 1, 0], [6, 8, 2]]))
     for s0 in range(len(STEPS)):
         obs.append(dict(name='coherent[H=2,first=%s]' % STEPS[s0], fn='h_coherent', config={'s0': s0, 'H': 2}, budget=90 if q else 300,
